@@ -4,6 +4,7 @@ import QuantemModel.Lemmas.RadonExt
 import QuantemModel.Lemmas.RadonExt2
 import QuantemModel.Lemmas.RadonGeometry
 import QuantemModel.Lemmas.RadonPadSpec
+import QuantemModel.Lemmas.RadonSymmetry
 /-!
 C07 — growth round 6 (listed in `EXTRA_PROPS` of harness/props/c07.py): what the two transforms do
 with angle sets that are NOT an ascending list inside [0°, 180°] — angles beyond 180° / 360°,
@@ -225,5 +226,59 @@ theorem iradon_geometry_spec (N : Nat) (circle : Bool) (out : Option Nat) :
 
 example : iradonGeom (R := ℝ) 4 false (some 3) = { D := 4, padBefore := 0, padAfter := 0, P := 64, padY := 60, out := 3 } := by
   simp [iradonGeom]; decide
+
+/-! ## 5. whole-transform statements for angle sets outside [0°, 180°] -/
+
+/-- **iradon_angle_period**: the whole reconstruction of iradon_torch (any sinogram, filter, circle flag,
+output size) is unchanged when any whole number of turns is added to every angle of the set — an angle
+set given as 200°…380° or −180°…0° reconstructs what the port reconstructs from the set reduced by 360°.
+(With `iradon_output_size_agree`: and what scikit-image reconstructs.) -/
+theorem iradon_angle_period (sino : List (List ℝ)) (th : List ℝ) (k : ℤ) (name : FilterName) (circle : Bool) (out : Nat) :
+    iradonTorchOut sino (some (th.map fun θ => θ + 360 * (k : ℝ))) name circle out
+      = iradonTorchOut sino (some th) name circle out := by
+  unfold iradonTorchOut backproject
+  simp only [Option.getD_some, List.length_map]
+  apply List.map_congr_left
+  intro r _
+  apply List.map_congr_left
+  intro c _
+  have h : ∀ (filtered : List (List ℝ)) (D radius : Nat),
+      backprojAt (fun D v t => interpTorch D v (t + Num.ofNat (D / 2))) D
+          ((List.zip filtered (th.map fun θ => θ + 360 * (k : ℝ))).map fun p => (rowAcc p.1, p.2)) radius r c
+        = backprojAt (fun D v t => interpTorch D v (t + Num.ofNat (D / 2))) D
+          ((List.zip filtered th).map fun p => (rowAcc p.1, p.2)) radius r c := by
+    intro filtered D radius
+    unfold backprojAt
+    congr 1
+    rw [List.zip_map_right, List.map_map, List.map_map, List.map_map]
+    apply List.map_congr_left
+    intro p _
+    simp only [Function.comp, Prod.map, id, backprojection_angle_period]
+  simp only [h]
+
+example : iradonTorchOut [[1, 2, 3], [4, 5, 6]] (some (([-170, 10] : List ℝ).map fun θ => θ + 360 * ((1 : ℤ) : ℝ))) .ramp true 3
+    = iradonTorchOut [[1, 2, 3], [4, 5, 6]] (some ([-170, 10] : List ℝ)) .ramp true 3 :=
+  iradon_angle_period _ _ 1 _ _ _
+
+/-- **radon_half_turn** (reference, every size): the projection from the opposite side, `θ + 180°`, is the
+projection at `θ` of the image rotated by 180° about `(N//2, N//2)` (two quarter turns) — NOT the same
+projection: an image that is not symmetric under that rotation separates an implementation that folds
+angles into [0°, 180°). -/
+theorem radon_half_turn (f : Int → Int → ℝ) (N : Nat) (θ : ℝ) (x : Nat) :
+    radonSkAt f N (θ + 180) x = radonSkAt (rot90 N (rot90 N f)) N θ x := by
+  have h : θ + 180 = (θ + 90) + 90 := by ring
+  rw [h, radonSkAt_add_90, radonSkAt_add_90]
+
+example : radonSkAt pin 4 ((37 : ℝ) + 180) 1 = radonSkAt (rot90 4 (rot90 4 pin)) 4 37 1 := radon_half_turn pin 4 37 1
+
+/-- **radon_half_turn_torch_odd**: the same for radon_torch at odd sizes (where the disc mask is invariant
+under the quarter turn). -/
+theorem radon_half_turn_torch_odd (f : Int → Int → ℝ) (N : Nat) (hN : 2 ≤ N) (hodd : N % 2 = 1) (θ : ℝ) (x : Nat) :
+    radonTorchAt f N (θ + 180) x = radonTorchAt (rot90 N (rot90 N f)) N θ x := by
+  have h : θ + 180 = (θ + 90) + 90 := by ring
+  rw [h, radonTorchAt_add_90_odd f N hN hodd, radonTorchAt_add_90_odd _ N hN hodd]
+
+example : radonTorchAt pin 3 ((37 : ℝ) + 180) 1 = radonTorchAt (rot90 3 (rot90 3 pin)) 3 37 1 :=
+  radon_half_turn_torch_odd pin 3 (by norm_num) (by norm_num) 37 1
 
 end QuantemModel.Props.C07
